@@ -348,7 +348,7 @@ func c20(c *core.Check) {
 		}
 	}
 
-	r3 := c.Rule("R3", "every ParseError kind that a tokenizer-level construction site can produce has a case in ParseError.serializeTo (whose default panics)", 4)
+	r3 := c.Rule("R3", "every ParseError kind that a tokenizer-level construction site can produce has a case in ParseError.serializeTo (whose default panics)", 2)
 	pse := p.Method("css/parser", "ParseError", "serializeTo")
 	if pse == nil {
 		r3.Anchor("css/parser.ParseError.serializeTo")
@@ -452,7 +452,7 @@ func c20(c *core.Check) {
 	c20BackslashNewline(c)
 	c20IdentFuses(c)
 	c20TightLookahead(c)
-	r4 := c.Rule("R4", "serializeStringValue escapes \", \\, LF, CR, FF; serializeURL additionally ', space, TAB, ( and ); serializeName passes through only [A-Za-z0-9_-] and non-ASCII", 6)
+	r4 := c.Rule("R4", "serializeStringValue escapes \", \\, LF, CR, FF; serializeURL additionally ', space, TAB, ( and ); serializeName passes through only [A-Za-z0-9_-] and non-ASCII", 5)
 	// an escaped leading digit (or control character) of an identifier is a hexadecimal escape: it must end with a space
 	if si := p.Fn("css/parser", "serializeIdentifier"); si == nil {
 		r4.Anchor("css/parser.serializeIdentifier")
@@ -751,7 +751,7 @@ func c20EscapeTerminator(c *core.Check) {
 // follows: an escape written without it swallows a space or tab that is part of the value ("one\A  two").
 func c20HexEscapesEndWithSpace(c *core.Check) {
 	p := c.Prog
-	r := c.Rule("R6", "hexadecimal escapes are always terminated: every string constant of css/parser's serializers that spells a hexadecimal escape (backslash and hex digits) ends with a space — there is no escape constant without it, whose space would then depend on what follows", 6)
+	r := c.Rule("R6", "hexadecimal escapes are always terminated: every string constant of css/parser's serializers that spells a hexadecimal escape (backslash and hex digits) ends with a space — there is no escape constant without it, whose space would then depend on what follows", 5)
 	n := 0
 	for _, name := range []string{"serializeStringValue", "serializeURL", "endEscape"} {
 		fn := p.Fn("css/parser", name)
